@@ -290,7 +290,8 @@ Inductive stmt :=
 | SFor (c : option expr) (step : option expr) (b : stmt)      (* the init part is emitted in front *)
 | SReturn (e : option expr)
 | SBreak
-| SContinue.
+| SContinue
+| SSwitch (e : expr) (segs : list (list (option Z) * stmt)).   (* segments in source order; labels: Some k = case k, None = default *)
 
 Inductive outcome := ONormal (st : state) | OBreak (st : state) | OContinue (st : state)
                    | OReturn (v : val) (st : state) | OErr (e : err).
@@ -487,6 +488,31 @@ Section Sem.
       | SReturn (Some e) => match eval e st with Ok (v, st1) => OReturn v st1 | Err x => OErr x end
       | SBreak => OBreak st
       | SContinue => OContinue st
+      | SSwitch e segs =>
+          match eval e st with
+          | Ok (v, st1) =>
+              match as_int v with
+              | Ok z =>
+                  (* the label control jumps to: case z if some segment carries it, else default; a break leaves the switch *)
+                  let has := existsb (fun seg => existsb (fun l => match l with Some k => k =? z | None => false end) (fst seg)) segs in
+                  let hit (labs : list (option Z)) :=
+                    existsb (fun l => match l with Some k => has && (k =? z) | None => negb has end) labs in
+                  (fix run (l : list (list (option Z) * stmt)) (started : bool) (st : state) {struct l} : outcome :=
+                     match l with
+                     | [] => ONormal st
+                     | (labs, s0) :: r =>
+                         if started || hit labs then
+                           match go s0 st with
+                           | ONormal st2 => run r true st2
+                           | OBreak st2 => ONormal st2
+                           | o => o
+                           end
+                         else run r false st
+                     end) segs false st1
+              | Err x => OErr x
+              end
+          | Err x => OErr x
+          end
       end.
 End Sem.
 
